@@ -99,3 +99,20 @@ Fixpoint upd {A} (l : list A) (n : nat) (x : A) : list A :=
   | h :: t, S k => h :: upd t k x
   end.
 
+
+(* make_chunked_generator: the (start, stop) row ranges that are loaded, for n rows *)
+Fixpoint full_chunks (k : nat) (i c : Z) : list (Z * Z) :=
+  match k with O => [] | S k' => (i * c, (i + 1) * c) :: full_chunks k' (i + 1) c end.
+
+Definition chunk_ranges (n : Z) (chunk : option Z) : list (Z * Z) :=
+  match chunk with
+  | None => [(0, n)]
+  | Some c =>
+      let q := n / c in let r := n mod c in
+      full_chunks (Z.to_nat q) 0 c ++ (if 0 <? r then [(q * c, n)] else [])
+  end.
+
+(* rows produced by iterating the generator over `rows` *)
+Definition chunked {A} (rows : list A) (chunk : option Z) : list A :=
+  concat (map (fun '(a, b) => slice a b rows) (chunk_ranges (zlen rows) chunk)).
+
